@@ -146,6 +146,7 @@ type spec struct {
 	Text    string
 	Wallet  string
 	Expr    string // "" = whole wallet
+	Invalid bool   // not a usable specifier (invalid expression, anchored wallet part): admits nothing
 	BareAlt bool
 	Doc     bool // a documented form, for which the converse (matching accounts are offered) is asserted
 }
@@ -157,6 +158,12 @@ func genSpec(r *rand.Rand) spec {
 		return spec{Text: w, Wallet: w, Doc: true}
 	case x == 2:
 		return spec{Text: w + "/", Wallet: w} // trailing slash: not a documented form
+	case x == 4 && r.Intn(2) == 0:
+		e := []string{"a.***", "a[", "(ab", "Validator.*)"}[r.Intn(4)]
+		return spec{Text: w + "/" + e, Wallet: w, Expr: e, Invalid: true}
+	case x == 5 && r.Intn(3) == 0:
+		// an anchored wallet part is read as the plain wallet name (but does not by itself make the signer open it)
+		return spec{Text: "^" + w + "/" + "a", Wallet: w, Expr: "a"}
 	case x == 3:
 		e := bareAlts[r.Intn(len(bareAlts))]
 		return spec{Text: w + "/" + e, Wallet: w, Expr: e, BareAlt: true}
@@ -178,7 +185,7 @@ func genSpec(r *rand.Rand) spec {
 // allowed: the name fully matches the specifier (account part anchored as a whole, or - for a bare alternation -
 // the whole specifier anchored as a whole; either reading is accepted).
 func (s spec) allows(walletName, acct string) bool {
-	if walletName != s.Wallet {
+	if s.Invalid || walletName != s.Wallet {
 		return false
 	}
 	if s.Expr == "" {
@@ -524,6 +531,103 @@ func lifecycle(c *harness.Ctx) {
 	}
 }
 
+
+// concurrentRefresh: lookups overlap refreshes whose validator sets differ; every reported (index, account) pair
+// must be a pair of one of the two sets.
+func concurrentRefresh(c *harness.Ctx) {
+	n := c.N(6, 200)
+	for i := 0; i < n; i++ {
+		id := fmt.Sprintf("concrefresh%d", i)
+		c.Case(id, func() {
+			kind := []string{"dirk", "wallet"}[i%2]
+			nAcc := 24
+			var accts []harness.Acct
+			var list []e2wtypes.Account
+			for k := 0; k < nAcc; k++ {
+				ak := harness.KindMulti
+				if kind == "wallet" {
+					ak = harness.KindPlain
+				}
+				a := harness.NewAcct(ak, "W", fmt.Sprintf("c%d", k), 2400+k, 0, nil)
+				accts = append(accts, a)
+				list = append(list, a)
+			}
+			wallets := map[string]*harness.FWallet{"W": harness.NewFWallet("W", list)}
+			e, err := newEnv(kind, []string{"W"}, wallets)
+			if err != nil {
+				c.Inconclusive(err.Error())
+				return
+			}
+			valid := map[uint64]string{}
+			mk := func(lo, hi int) map[phase0.BLSPubKey]*apiv1.Validator {
+				out := map[phase0.BLSPubKey]*apiv1.Validator{}
+				for k := lo; k < hi; k++ {
+					idx := uint64(5000 + k)
+					valid[idx] = accts[k].Name()
+					out[accts[k].Pub48()] = &apiv1.Validator{Index: phase0.ValidatorIndex(idx), Validator: &phase0.Validator{PublicKey: accts[k].Pub48(), EffectiveBalance: 32e9,
+						ActivationEpoch: 0, ExitEpoch: farFuture, WithdrawableEpoch: farFuture}}
+				}
+				return out
+			}
+			setA, setB := mk(0, 16), mk(8, 24)
+			stop := make(chan struct{})
+			var wg sync.WaitGroup
+			wg.Add(1)
+			go func() {
+				defer wg.Done()
+				for k := 0; k < 300; k++ {
+					e.beacon.mu.Lock()
+					if k%2 == 0 {
+						e.beacon.records = setA
+					} else {
+						e.beacon.records = setB
+					}
+					e.beacon.mu.Unlock()
+					e.refresh([]string{"W"})
+				}
+				close(stop)
+			}()
+			bad := ""
+			lookups := 0
+			for w := 0; w < 3; w++ {
+				wg.Add(1)
+				go func() {
+					defer wg.Done()
+					for {
+						select {
+						case <-stop:
+							return
+						default:
+						}
+						got, err := e.mgr.ValidatingAccountsForEpoch(context.Background(), 5)
+						if err != nil {
+							continue
+						}
+						e.beacon.mu.Lock()
+						lookups++
+						for idx, a := range got {
+							if a == nil || valid[uint64(idx)] != a.Name() {
+								nm := "<nil>"
+								if a != nil {
+									nm = a.Name()
+								}
+								bad = fmt.Sprintf("index %d reported with account %s", idx, nm)
+							}
+						}
+						e.beacon.mu.Unlock()
+					}
+				}()
+			}
+			wg.Wait()
+			c.Count("lookups_during_refresh", int64(lookups))
+			if bad != "" {
+				c.Violate("wrong-index-during-refresh:"+kind, "a lookup overlapping a refresh reported a pair that is in neither validator set: "+bad, id, nil)
+			}
+			c.Distinct("concrefresh|" + kind)
+		})
+	}
+}
+
 func run(c *harness.Ctx) {
 	harness.InitBLS()
 	var err error
@@ -535,6 +639,7 @@ func run(c *harness.Ctx) {
 	defer os.RemoveAll(tmpDir)
 	admission(c)
 	lifecycle(c)
+	concurrentRefresh(c)
 }
 
 var _ = sort.Strings
